@@ -29,6 +29,9 @@ type cliCase struct {
 	InVia  string    `json:"in_via"` // file | stdin | .gz | .xz
 	Out    cfg       `json:"out"`    // sub-command and Phylip output options
 	OutVia string    `json:"out_via"`
+	// Existing: the -o path already exists and is longer than the output: 1 = a file of the same
+	// container (plain/gz/xz) holding a longer content, 2 = plain bytes whatever the extension
+	Existing int `json:"existing,omitempty"`
 }
 
 var cliOut = []string{"fasta", "phylip", "nexus", "clustal"}
@@ -58,6 +61,9 @@ func genCLI(t *rapid.T) cliCase {
 	c.Long = rapid.Bool().Draw(t, "long")
 	c.InVia = rapid.SampledFrom([]string{"file", "file", "stdin", ".gz", ".xz"}).Draw(t, "invia")
 	c.OutVia = rapid.SampledFrom([]string{"stdout", "stdout", "file", ".gz", ".xz"}).Draw(t, "outvia")
+	if c.OutVia != "stdout" {
+		c.Existing = rapid.SampledFrom([]int{0, 0, 0, 0, 1, 2}).Draw(t, "existing")
+	}
 	d := domOf(c.In, c.Out)
 	for i := 0; i < k; i++ {
 		x := c.In
@@ -93,7 +99,7 @@ func has(list []string, s string) bool {
 func checkCLI(c cliCase) (o pbt.Outcome, err error) {
 	if !has(cliOut, c.Out.Format) || !has(cliIn, c.In.Format) || !c.In.valid() || !c.Out.valid() || len(c.Alis) == 0 ||
 		!has([]string{"file", "stdin", ".gz", ".xz"}, c.InVia) || !has([]string{"stdout", "file", ".gz", ".xz"}, c.OutVia) ||
-		(c.Auto && (c.In.Format == "stockholm" || c.In.Strict)) {
+		(c.Auto && (c.In.Format == "stockholm" || c.In.Strict)) || c.Existing < 0 || c.Existing > 2 || (c.Existing != 0 && c.OutVia == "stdout") {
 		o.Skip = true
 		return o, nil
 	}
@@ -186,6 +192,7 @@ func checkCLI(c cliCase) (o pbt.Outcome, err error) {
 		args = append(args, "--no-block")
 	}
 	var outPath, outExt string
+	existingSize := -1
 	if c.OutVia != "stdout" {
 		if c.OutVia != "file" {
 			outExt = c.OutVia
@@ -193,6 +200,21 @@ func checkCLI(c cliCase) (o pbt.Outcome, err error) {
 		outPath = filepath.Join(cliDir, fmt.Sprintf("out%d.%s%s", n, c.Out.Format, outExt))
 		defer os.Remove(outPath)
 		args = append(args, flag("-o", "--output"), outPath)
+		// an output file that already exists and is longer than what will be written
+		// (three times the input text and padding; the output holds the input once)
+		if c.Existing != 0 {
+			old := strings.Repeat(priorContent(text), 2)
+			var content []byte
+			if c.Existing == 1 {
+				content = compress(old, outExt)
+			} else {
+				content = []byte(old)
+			}
+			if e := os.WriteFile(outPath, content, 0o644); e != nil {
+				return o, fmt.Errorf("harness: %v", e)
+			}
+			existingSize = len(content)
+		}
 	}
 	r := cli.Run(stdin, args...)
 	show := strings.Join(args, " ")
@@ -212,9 +234,16 @@ func checkCLI(c cliCase) (o pbt.Outcome, err error) {
 		}
 		back, e := decompress(raw, outExt)
 		if e != nil {
-			return o, fmt.Errorf("goalign %s: the output file is not readable by an independent %s reader: %v (%d bytes on disk)", show, outExt, e, len(raw))
+			return o, fmt.Errorf("goalign %s: the output file (which existed before with %d bytes; -1 = did not exist) is not readable by an independent %s reader: %v (%d bytes on disk)", show, existingSize, outExt, e, len(raw))
 		}
 		out = string(back)
+		if c.Existing != 0 {
+			if existingSize > len(raw) {
+				o.Class("-o names an existing longer file (%s, kind %d)", c.OutVia, c.Existing)
+			} else {
+				o.Class("-o names an existing file that is not longer")
+			}
+		}
 	}
 	// read the output back
 	var got []align.Alignment
